@@ -3,6 +3,7 @@ import GdcVerif.Model.Rct
 import GdcVerif.Model.Dwt53
 import GdcVerif.Model.Mqc
 import GdcVerif.Gen.J2kT1
+import GdcVerif.Model.T1
 /-! Driver ops of C20: RCT, 5/3 DWT, MQ coder. -/
 namespace Drv.C20
 open Drv
@@ -87,6 +88,20 @@ def step? : List String → Option String
       match runScript ops (Mqc.Enc.new n) with
       | some e => "ok " ++ bytesToHex (Mqc.getBuffer e)
       | none => "panic"
+    | _, _ => "bad-op"
+  | ["t1-enc", w, h, o, sty, np, xs] => some <| match nats? [w, h, o, sty, np], parseInts xs with
+    | some [w, h, o, sty, np], some xs =>
+      match T1.encodeBlock w h o sty xs np with
+      | .ok bs => "ok " ++ bytesToHex bs
+      | .err => "err"
+      | .panic => "panic"
+    | _, _ => "bad-op"
+  | ["t1-dec", w, h, o, sty, np, mb, hx] => some <| match nats? [w, h, o, sty, np], mb.toInt? with
+    | some [w, h, o, sty, np], some mb =>
+      match T1.decodeBlock w h o sty np mb (hexToBytes hx) with
+      | .ok xs => "ok " ++ intsToStr xs
+      | .err => "err"
+      | .panic => "panic"
     | _, _ => "bad-op"
   | ["t1-lut", name, i] => some <| match i.toNat? with
     | some i =>
